@@ -2003,13 +2003,22 @@ PPL::MIP_Problem::is_lp_satisfiable() const {
         // assertion to be checked.
         x.initialized = true;
       }
-      else if (x.initialized
-               && x.internal_space_dim == x.external_space_dim) {
+      else if (x.initialized) {
         // The pending constraints are going to be checked against
         // `last_generator', which has to be the basic solution of the
         // tableau: a previous call to solve() or is_satisfiable() on a
         // problem with integer variables may have replaced it with the
         // integral solution found by branch-and-bound.
+        // Note: space dimensions added since then are not yet known to
+        // the tableau; the basic solution only has the old ones.
+        struct Restore_Dim {
+          dimension_type& dim;
+          const dimension_type saved;
+          ~Restore_Dim() {
+            dim = saved;
+          }
+        } restore_dim = { x.external_space_dim, x.external_space_dim };
+        x.external_space_dim = x.internal_space_dim;
         x.compute_generator();
       }
 
